@@ -125,7 +125,7 @@ Definition show_tail (storage_level : bool) (s : st) (inner : bytes) : bytes :=
 Definition show_counts (l : list nat) : bytes :=
   match l with [] => B"_" | _ => join B"," (map show_nat l) end.
 
-Definition run_line (l : bytes) : bytes :=
+Definition run_line_round1 (l : bytes) : bytes :=
   match tokens l with
   | [m; su; n; o] =>
       do mode <- parse_mode m; do suc <- parse_setup su; do n <- parse_nat n; do ops <- parse_ops o;
